@@ -298,12 +298,24 @@ pub fn conclude(id: &str, tier: &str, seed: u64, level: &str, agg: &Agg, rules: 
     let target_evals: u64 = rules.iter().map(|r| agg.stats.evals.get(r).copied().unwrap_or(0)).sum();
     let missing: Vec<&&str> = rules.iter().filter(|r| agg.stats.evals.get(**r).copied().unwrap_or(0) == 0).collect();
     let distinct: u64 = rules.iter().map(|r| agg.stats.contexts.get(r).map(|s| s.len() as u64).unwrap_or(0)).sum();
+    // write one sampled run out in full (its boundary event log), so a reader sees what a case is
+    let mut samples = agg.samples.clone();
+    if let Some(first) = samples.iter().position(|x| x.get("seed").is_some() && x.get("profile").is_some()) {
+        let sseed = samples[first]["seed"].as_u64().unwrap_or(0);
+        let sprof = samples[first]["profile"].as_str().unwrap_or("Mixed").to_string();
+        if let Ok(r) = std::panic::catch_unwind(std::panic::AssertUnwindSafe(|| run_one(RunOpts { seed: sseed, profile: profile_from(&sprof), thorough: tier == "thorough", log_events: true, script: None, plan_override: None, target: Some(id.to_string()) }))) {
+            let ev: Vec<String> = r.events.iter().take(70).map(|e| format!("[{} t={}ms] {}", e.step, e.t_ms, e.text.chars().take(180).collect::<String>())).collect();
+            samples[first]["event_log_head"] = json!(ev);
+        } else {
+            crate::sim::PANICS.with(|p| p.borrow_mut().clear());
+        }
+    }
     let mut cov = json!({
         "evaluations": agg.runs,
         "distinct_nontrivial": agg.target_sigs.len(),
         "distinct_target_contexts": distinct,
         "rule": rule_text,
-        "samples": agg.samples,
+        "samples": samples,
         "distinct_abstract_traces": agg.sigs.len(),
         "environment_steps": agg.steps,
         "plugin_lifetimes": agg.lifetimes,
